@@ -46,12 +46,14 @@ def point_probs(kind, size, logits_b):
     """P(s) for every point of S under the parameters of one batch element (float64)."""
     pts = space_points(kind, size)
     if kind in ("bern_joint", "bern_batch"):
-        ps = [sigmoid(x) for x in (logits_b if kind == "bern_joint" else [logits_b])]
+        xs = list(logits_b if kind == "bern_joint" else [logits_b])
+        ps = [sigmoid(x) for x in xs]
+        qs = [sigmoid(-x) for x in xs]  # 1 - sigmoid(x) without the cancellation (logits of magnitude 40 and more)
         out = []
         for pt in pts:
             p = 1.0
-            for bit, q in zip(pt, ps):
-                p *= q if bit else (1.0 - q)
+            for bit, q1, q0 in zip(pt, ps, qs):
+                p *= q1 if bit else q0
             out.append(p)
         return out
     return softmax(logits_b)
